@@ -13,6 +13,8 @@ _installed = False
 def install():
     global _installed
     lpdump.install()
+    import e1
+    e1.EQ_CMDS |= {"mgsenc", "msc", "mef", "mef2"}      # h_miscenc.ml offers <cmd>_eq for these
     if _installed:
         return
     from flowpaths.utils import solverwrapper as sw
@@ -185,3 +187,21 @@ def colkey_mef(solver, ids):
             return (34, ids[i[0]], ids[i[1]], i[2])
         raise KeyError((p, i))
     return key
+
+
+def decide(ctx, engine, impl, req, d):
+    """E1 verdict: the Python diff `d` is cross-checked by the extracted VERIFIED checker LinEquiv.milp_equiv_b (<cmd>_eq);
+    when they disagree the verified one is trusted (and the disagreement is counted and noted)."""
+    import e1
+    try:
+        ve = e1.verified_equal(ctx, engine, impl, req)
+    except Exception as e:
+        ctx.report(f"{engine}: verified LP comparison crashed: {e!r}", {"engine": engine}, concrete=False)
+        return d
+    if ve is not None and ve != (not d):
+        ctx.count(engine, "python_diff_and_verified_checker_disagree")
+        if ve is False and not d:
+            d = ["the verified checker LinEquiv.milp_equiv_b rejects the equivalence of the two LPs (the Python diff saw none)"]
+        elif ve is True and d:
+            ctx.notes.append({"verified_checker_accepts_although_python_diff_reports": d[:3]}); d = []
+    return d
